@@ -8,7 +8,7 @@ from vlib import episode_oracle as O
 ID = "C08"
 RULE = ("Generated bar-shaped episodes with pairwise-distinct actions (action k has weights base + k*0.03), delay 0-4, latency in "
         "{0, 1us, 1s, gap/2, gap-1us}, extra quotes placed at t+latency-1us, t+latency, t+latency+1us and mid-gap, 3-15 timesteps, Box and "
-        "Discrete spaces. Oracle: FIFO model (execution k carries the allocation of decision k-d, null allocation for the first d; executed "
+        "Discrete spaces; half of the cases run a second episode on the same environment (actions reversed). Oracle: FIFO model (execution k carries the allocation of decision k-d, null allocation for the first d; executed "
         "sequence == d nulls + submitted prefix), every trade priced at the side-appropriate price of the last input quote stamped <= t+latency "
         "(integer microseconds), info['_rebalancing'] is the last track-record entry. Non-trivial = delay >= 1 and a quote inside the latency "
         "window (in particular exactly at the bound) before an execution.")
@@ -22,6 +22,7 @@ ASSUMPTIONS = [
 def cases(draw, tier="quick"):
     c = draw(E.episode_cases(tier, max_points=15, max_delay=4, leverage=1.5, boundary_extras=True, distinct_actions=True,
                              with_pings=False, rewards=[["simple"]]))
+    c["second_episode"] = draw(st.sampled_from([False, True]))      # a second episode on the same environment
     if draw(st.integers(0, 2)) == 0:
         n = len(c["contracts"])
         k = draw(st.integers(2, 5))
@@ -33,7 +34,7 @@ def cases(draw, tier="quick"):
 
 def run(case):
     res = Result()
-    stats = O.replay(case, res, {"fifo", "pricing"})
+    stats = O.replay(case, res, {"fifo", "pricing"}, episodes=2 if case.get("second_episode") else 1)
     if stats["ruin"]:
         res.excluded = "ended-by-insolvency"
     res.nontrivial = case["delay"] >= 1 and stats["latent_quote_changed_price"] >= 1
@@ -42,6 +43,8 @@ def run(case):
         res.tag("quote-exactly-at-latency-bound")
     if stats["latent_quote_changed_price"]:
         res.tag("latent-quote")
+    if case.get("second_episode"):
+        res.tag("two-episodes-on-one-environment")
     return res
 
 
